@@ -142,6 +142,9 @@ def _value(rng, kind, nodes, class_nodes=None):
         r = rng.random()
         if r < 0.03:
             return lit("", XSD + "string")      # the empty string is a value too
+        if r < 0.06:
+            # a long multi-byte value: byte offsets and character offsets drift apart by more than a line
+            return lit("\u6771\u4eac\u90fd" * 25 + str(rng.randrange(5)), XSD + "string")
         if r < 0.15:     # strings with blanks and non-ASCII characters (readers, codecs and sinks must agree on them)
             return lit(rng.choice(["caf\u00e9 %d", "\u6771\u4eac %d", "na\u00efve v%d", "two words %d"]) % rng.randrange(10), XSD + "string")
         return lit("v%d" % rng.randrange(40), XSD + "string")
